@@ -123,14 +123,14 @@ func c11(r *core.Report, p *core.Prog, thorough bool) {
 			r.Fail("C11.lock-value", fmt.Sprintf("LockPool:literal:%d:reward-zero", i), posOf(p, l.Alloc), "a new pool starts with zero reward")
 		}
 	}
-	cr := CreditsOf(lp, balF)
-	if r.Check(len(cr) == 1, "C11.lock-value", "LockPool:top-up-credit", p.Pos(lp.Pos()), fmt.Sprintf("%d credits to an existing pool's Balance", len(cr))) {
+	cr := CreditsVia(lp, balF)
+	if r.Check(len(cr) == 1, "C11.lock-value", "LockPool:top-up-credit", p.Pos(lp.Pos()), fmt.Sprintf("%d credits to an existing pool's Balance (in LockPool or a helper it calls)", len(cr))) {
 		r.Check(describe(cr[0].Added) == "txn.Value" && cr[0].Call != nil, "C11.lock-value", "LockPool:top-up-value", posOf(p, cr[0].W.Instr), "existing pool credited with "+describe(cr[0].Added)+" through checked AddCoin")
 		if cr[0].Call != nil {
-			r.Check(core.ErrLeadsToFailure(cr[0].Call), "C11.lock-value", "LockPool:top-up-err", p.Pos(cr[0].Call.Pos()), "overflow aborts")
+			r.Check(cr[0].ErrOK, "C11.lock-value", "LockPool:top-up-err", p.Pos(cr[0].Call.Pos()), "overflow aborts")
 		}
 		// the credited object is the one found in the map (identity)
-		base, _ := core.BaseObject(cr[0].W.Addr)
+		base, _ := core.BaseObject(cr[0].Addr)
 		isLookup := false
 		if e, ok := base.(*ssa.Extract); ok {
 			_, isLookup = e.Tuple.(*ssa.Lookup)
